@@ -84,8 +84,11 @@ def held(m):
     out = {}
     for s in walk_spaces(m):
         for c in s.cells.values():
-            if len(c):
-                out[c.fullname] = dict(c._impl.data)
+            try:
+                if len(c):
+                    out[c.fullname] = dict(c._impl.data)
+            except AttributeError as e:      # half-constructed cells left behind by a failed op
+                out[c.fullname] = "BROKEN %s" % e
     return out
 
 
